@@ -1,7 +1,437 @@
-//! E1 worldsim: parallel phases under the baton scheduler. Filled in below.
-use crate::wcase::ParPhase;
-use crate::wexec::{Exec, R};
+//! E1 worldsim: parallel phases. 2-4 simulated tasks share `&World` (shared access only) under the
+//! baton scheduler. Deferred operations commute, so the oracle is set-based.
 
-pub fn run_par_phase(_ex: &mut Exec, _ph: &mut ParPhase) -> R {
-    Ok(())
+use crate::baton::{run_tasks, TaskBody, TaskCtx};
+use crate::comps::V;
+use crate::wcase::*;
+use crate::wexec::{props, zp, Exec, Violation, R};
+use crate::wmodel::{LazyAct, Model};
+use crate::wscript::{Ctx, LogEntry};
+use specs::prelude::*;
+use std::collections::{BTreeMap, BTreeSet, HashSet};
+use std::sync::Mutex;
+
+#[derive(Clone, Debug)]
+enum ParLazy {
+    Insert { slot: u8, ent: Entity, v: V },
+    Remove { slot: u8, ent: Entity },
+    Log { cid: u32 },
+}
+
+#[derive(Default)]
+struct ParState {
+    /// creations in the global order in which they returned
+    created: Vec<(H, Entity)>,
+    created_set: HashSet<(u32, i32)>,
+    created_idx: BTreeSet<u32>,
+    in_flight: usize,
+    deletes: Vec<Entity>,
+    lazy: Vec<ParLazy>,
+    violation: Option<Violation>,
+    /// join items that were not attributable when seen (in-flight creations): (uid, entity)
+    pending_join_items: Vec<(u32, Entity)>,
+    stats: BTreeMap<&'static str, u64>,
+}
+
+struct Shared<'a> {
+    world: &'a World,
+    model: &'a Model,
+    ctx: Ctx,
+    st: Mutex<ParState>,
+}
+
+impl<'a> Shared<'a> {
+    fn fail(&self, uid: u32, ps: &[&str], oracle: &str, detail: String) {
+        let mut st = self.st.lock().unwrap();
+        if st.violation.is_none() {
+            st.violation = Some(Violation {
+                props: props(ps),
+                oracle: oracle.to_string(),
+                detail,
+                at_uid: uid,
+            });
+        }
+    }
+
+    fn failed(&self) -> bool {
+        self.st.lock().unwrap().violation.is_some()
+    }
+
+    fn probe(&self, name: &'static str) {
+        *self.st.lock().unwrap().stats.entry(name).or_insert(0) += 1;
+    }
+
+    /// is the handle alive according to what has happened so far (monotone inside a phase)
+    fn expect_alive(&self, e: Entity) -> Option<bool> {
+        if let Some(hn) = self.model.lookup(e) {
+            return Some(self.model.alive(hn));
+        }
+        let st = self.st.lock().unwrap();
+        if st.created_set.contains(&(e.id(), e.gen().id())) {
+            return Some(true);
+        }
+        None
+    }
+
+    fn begin_create(&self) {
+        self.st.lock().unwrap().in_flight += 1;
+    }
+
+    /// a creation call returned `e`: uniqueness, occupancy, index bound, alive-for-creator
+    fn end_create(&self, uid: u32, h: H, e: Entity, ents: &specs::world::EntitiesRes) {
+        let mut bad: Option<(Vec<&str>, &str, String)> = None;
+        {
+            let mut st = self.st.lock().unwrap();
+            if let Err((p, d)) = self.model.check_new_handle(e) {
+                bad = Some((vec![p, "C10"], "new-handle-unique", d));
+            } else if st.created_set.contains(&(e.id(), e.gen().id())) {
+                bad = Some((
+                    vec!["C10", "C01"],
+                    "new-handle-unique",
+                    format!("two concurrent creations returned the same handle {:?}", e),
+                ));
+            } else if st.created_idx.contains(&e.id()) {
+                bad = Some((
+                    vec!["C10", "C01"],
+                    "new-handle-unique",
+                    format!(
+                        "concurrent creation returned {:?} whose index is occupied by another entity created in this phase",
+                        e
+                    ),
+                ));
+            } else {
+                // C17: creations in flight count as occupying an index
+                let bound = self
+                    .model
+                    .peak
+                    .max(self.model.live_count() + st.created.len() + st.in_flight);
+                if e.id() as usize >= bound {
+                    bad = Some((
+                        vec!["C17"],
+                        "index-bound",
+                        format!(
+                            "concurrent creation returned index {} but at most {} entities were ever simultaneously not yet dead (in-flight creations included)",
+                            e.id(),
+                            bound
+                        ),
+                    ));
+                }
+            }
+            st.in_flight -= 1;
+            st.created.push((h, e));
+            st.created_set.insert((e.id(), e.gen().id()));
+            st.created_idx.insert(e.id());
+            if e.gen().id() > 1 {
+                *st.stats.entry("par_creation_reused_index").or_insert(0) += 1;
+            }
+        }
+        self.ctx.bind(h, e);
+        if let Some((ps, o, d)) = bad {
+            self.fail(uid, &ps, o, d);
+            return;
+        }
+        // alive for the creator as soon as the call returns
+        if !ents.is_alive(e) {
+            self.fail(
+                uid,
+                &["C10", "C02"],
+                "alive-for-creator",
+                format!("{:?} is not reported alive to its creator right after creation returned", e),
+            );
+        }
+    }
+}
+
+fn task_body<'a>(sh: &'a Shared<'a>, ops: &'a [POp], slots: &'a [Box<dyn crate::comps::SlotOps>]) -> TaskBody<'a> {
+    Box::new(move |t: &TaskCtx| {
+        let ents = sh.world.entities();
+        let lazy = sh.world.read_resource::<LazyUpdate>();
+        for op in ops {
+            t.yield_now("h.between_ops");
+            if sh.failed() {
+                return;
+            }
+            match &op.kind {
+                POpKind::Create => {
+                    sh.begin_create();
+                    let e = ents.create();
+                    sh.end_create(op.uid, H(op.uid, 0), e, &ents);
+                }
+                POpKind::CreateIter(n) => {
+                    let mut it = ents.create_iter();
+                    for k in 0..*n {
+                        sh.begin_create();
+                        let e = it.next().unwrap();
+                        sh.end_create(op.uid, H(op.uid, k as u16), e, &ents);
+                    }
+                }
+                POpKind::BuildEntity { dropped, .. } => {
+                    sh.begin_create();
+                    let b = ents.build_entity();
+                    let e = b.entity;
+                    sh.end_create(op.uid, H(op.uid, 0), e, &ents);
+                    if *dropped {
+                        drop(b);
+                        sh.st.lock().unwrap().deletes.push(e);
+                    } else {
+                        b.build();
+                    }
+                }
+                POpKind::LazyCreate { comps } => {
+                    sh.begin_create();
+                    let mut b = lazy.create_entity(&ents);
+                    let e = b.entity;
+                    sh.end_create(op.uid, H(op.uid, 0), e, &ents);
+                    for &(s, p) in comps {
+                        let (nb, id) = slots[s as usize].with_lazy(b, p);
+                        b = nb;
+                        // recorded right after the push returned: no yield point in between
+                        sh.st.lock().unwrap().lazy.push(ParLazy::Insert {
+                            slot: s,
+                            ent: e,
+                            v: (id, zp(sh.model, s, p)),
+                        });
+                    }
+                    b.build();
+                }
+                POpKind::Delete(h) => {
+                    let Some(e) = sh.ctx.resolve(*h) else { continue };
+                    let Some(exp) = sh.expect_alive(e) else { continue };
+                    let r = ents.delete(e);
+                    if r.is_ok() != exp {
+                        sh.fail(
+                            op.uid,
+                            &["C10", "C02"],
+                            "concurrent-delete-result",
+                            format!(
+                                "Entities::delete({:?}) from a task returned {:?}; the entity is {}",
+                                e,
+                                r.map_err(|e| e.to_string()),
+                                if exp { "alive (deletion requests for live handles must succeed)" } else { "dead" }
+                            ),
+                        );
+                        return;
+                    }
+                    if exp {
+                        sh.st.lock().unwrap().deletes.push(e);
+                        sh.probe("par_delete_requested");
+                    }
+                }
+                POpKind::IsAlive(h) => {
+                    let Some(e) = sh.ctx.resolve(*h) else { continue };
+                    let Some(exp) = sh.expect_alive(e) else { continue };
+                    let a = ents.is_alive(e);
+                    if a != exp {
+                        sh.fail(
+                            op.uid,
+                            &["C10", "C02"],
+                            "concurrent-is-alive",
+                            format!("Entities::is_alive({:?}) in a task = {}, expected {}", e, a, exp),
+                        );
+                        return;
+                    }
+                }
+                POpKind::JoinEntities => {
+                    let before: Vec<Entity> = {
+                        let st = sh.st.lock().unwrap();
+                        st.created.iter().map(|x| x.1).collect()
+                    };
+                    let got: Vec<Entity> = (&*ents).join().collect();
+                    // ascending, each index once
+                    for w in got.windows(2) {
+                        if w[0].id() >= w[1].id() {
+                            sh.fail(
+                                op.uid,
+                                &["C10", "C02"],
+                                "concurrent-join",
+                                format!("entities join in a task is not strictly ascending: {:?} then {:?}", w[0], w[1]),
+                            );
+                            return;
+                        }
+                    }
+                    let set: HashSet<(u32, i32)> = got.iter().map(|e| (e.id(), e.gen().id())).collect();
+                    for &hn in sh.model.occ.values() {
+                        let e = sh.model.hs[hn].ent;
+                        if !set.contains(&(e.id(), e.gen().id())) {
+                            sh.fail(
+                                op.uid,
+                                &["C10", "C02"],
+                                "concurrent-join",
+                                format!("entities join in a task misses {:?}, alive since before the phase", e),
+                            );
+                            return;
+                        }
+                    }
+                    for e in &before {
+                        if !set.contains(&(e.id(), e.gen().id())) {
+                            sh.fail(
+                                op.uid,
+                                &["C10", "C02"],
+                                "concurrent-join",
+                                format!("entities join in a task misses {:?}, whose creation had already returned", e),
+                            );
+                            return;
+                        }
+                    }
+                    let mut st = sh.st.lock().unwrap();
+                    for e in &got {
+                        if sh.model.lookup(*e).map(|hn| sh.model.alive(hn)).unwrap_or(false) {
+                            continue;
+                        }
+                        if st.created_set.contains(&(e.id(), e.gen().id())) {
+                            continue;
+                        }
+                        st.pending_join_items.push((op.uid, *e));
+                    }
+                    *st.stats.entry("par_join").or_insert(0) += 1;
+                }
+                POpKind::Get(slot, h) => {
+                    let Some(e) = sh.ctx.resolve(*h) else { continue };
+                    let exp = match sh.model.lookup(e) {
+                        Some(hn) => sh.model.get(*slot as usize, hn),
+                        None => None,
+                    };
+                    let got = slots[*slot as usize].get_read(sh.world, e);
+                    if got != exp {
+                        sh.fail(
+                            op.uid,
+                            &["C10", "C03"],
+                            "concurrent-get",
+                            format!("ReadStorage::get({:?}) in a task = {:?}, expected {:?}", e, got, exp),
+                        );
+                        return;
+                    }
+                }
+                POpKind::LazyInsert(slot, h, p) => {
+                    let Some(e) = sh.ctx.resolve(*h) else { continue };
+                    let id = slots[*slot as usize].lazy_insert(&lazy, e, *p);
+                    sh.st.lock().unwrap().lazy.push(ParLazy::Insert {
+                        slot: *slot,
+                        ent: e,
+                        v: (id, zp(sh.model, *slot, *p)),
+                    });
+                }
+                POpKind::LazyRemove(slot, h) => {
+                    let Some(e) = sh.ctx.resolve(*h) else { continue };
+                    slots[*slot as usize].lazy_remove(&lazy, e);
+                    sh.st.lock().unwrap().lazy.push(ParLazy::Remove { slot: *slot, ent: e });
+                }
+                POpKind::LazyExecLog => {
+                    let cid = op.uid;
+                    let log = sh.ctx.log.clone();
+                    lazy.exec(move |_w: &mut World| {
+                        log.lock().unwrap().push(LogEntry { cid, obs: vec![] });
+                    });
+                    sh.st.lock().unwrap().lazy.push(ParLazy::Log { cid });
+                }
+            }
+        }
+    })
+}
+
+pub fn run_par_phase(ex: &mut Exec, ph: &mut ParPhase) -> R {
+    ex.cur_uid = ph.uid;
+    ex.stats.par_phases += 1;
+    let slots = ex.slots.clone();
+    let (result, st) = {
+        let sh = Shared {
+            world: ex.world.as_ref().unwrap(),
+            model: &ex.model,
+            ctx: ex.ctx.clone(),
+            st: Mutex::new(ParState::default()),
+        };
+        let bodies: Vec<TaskBody> = ph
+            .tasks
+            .iter()
+            .map(|ops| task_body(&sh, ops, &slots))
+            .collect();
+        let result = run_tasks(&ph.baton, ph.recorded.clone(), bodies);
+        (result, sh.st.into_inner().unwrap())
+    };
+    if ph.recorded.is_none() {
+        ph.recorded = Some(result.recorded.clone());
+    }
+    ex.stats.sched_steps += result.stats.steps;
+    ex.stats.sched_switches += result.stats.switches;
+    ex.stats.sched_hashes.push(result.stats.sched_hash);
+    ex.stats.trace.add(result.stats.sched_hash);
+    for (k, v) in &result.stats.site_counts {
+        *ex.stats.site_counts.entry(k.to_string()).or_insert(0) += v;
+    }
+    for (k, v) in &result.stats.buggify_fired {
+        *ex.stats.buggify_fired.entry(k.to_string()).or_insert(0) += v;
+    }
+    for (k, v) in &result.stats.probes {
+        *ex.stats.probes.entry(k.to_string()).or_insert(0) += v;
+    }
+    for (k, v) in &st.stats {
+        *ex.stats.probes.entry(k.to_string()).or_insert(0) += v;
+    }
+    if result.stats.capped {
+        ex.stats.probe("scheduler_step_cap_hit");
+    }
+    if let Some(v) = st.violation {
+        return Err(v);
+    }
+    if let Some((task, msg)) = result.panics.first() {
+        return Err(ex.viol(
+            &["C10"],
+            "task-panicked",
+            format!(
+                "simulated task {} panicked: {} (at {})",
+                task,
+                msg,
+                crate::util::last_panic_location()
+            ),
+        ));
+    }
+    // merge the phase into the model
+    for (h, e) in &st.created {
+        ex.stats.creations += 1;
+        ex.stats.trace.add(((e.id() as u64) << 32) | e.gen().id() as u64);
+        if e.gen().id() > 1 {
+            ex.stats.index_reuses += 1;
+        }
+        ex.model.add_handle(*e, false, *h);
+    }
+    for (uid, e) in &st.pending_join_items {
+        if ex.model.lookup(*e).is_none() {
+            ex.cur_uid = *uid;
+            return Err(ex.viol(
+                &["C10", "C02"],
+                "concurrent-join",
+                format!(
+                    "entities join in a task yielded {:?}, which is neither alive since before the phase nor a handle any creation returned",
+                    e
+                ),
+            ));
+        }
+    }
+    for e in &st.deletes {
+        if let Some(hn) = ex.model.lookup(*e) {
+            ex.model.hs[hn].pending_kill = true;
+        }
+    }
+    for l in &st.lazy {
+        match l {
+            ParLazy::Insert { slot, ent, v } => {
+                if let Some(hn) = ex.model.lookup(*ent) {
+                    ex.stats.values_created += 1;
+                    ex.model.lazy.push_back(LazyAct::Insert {
+                        slot: *slot,
+                        hn,
+                        v: *v,
+                    });
+                }
+            }
+            ParLazy::Remove { slot, ent } => {
+                if let Some(hn) = ex.model.lookup(*ent) {
+                    ex.model.lazy.push_back(LazyAct::Remove { slot: *slot, hn });
+                }
+            }
+            ParLazy::Log { cid } => ex.model.lazy.push_back(LazyAct::ParLog { cid: *cid }),
+        }
+    }
+    ex.c10_window = true;
+    ex.post(&["C10", "C05"])
 }
